@@ -442,6 +442,9 @@ func instrumentFile(p *packages.Package, f *ast.File, fn string, pristine bool) 
 							switch sel.Sel.Name {
 							case "GOMAXPROCS", "NumCPU", "NumGoroutine":
 								census(n, "nondeterminism", "runtime."+sel.Sel.Name)
+							case "SetFinalizer":
+								// the finalizer runs on a goroutine of the runtime's
+								census(n, "concurrency", "runtime.SetFinalizer (finalizer goroutine)")
 							}
 						case "os":
 							switch sel.Sel.Name {
